@@ -195,17 +195,18 @@ class TracepointConfigService:
         if config is None:
             # do not keep something we cannot interpret (e.g. unknown stage): it would break every later update
             raise ValueError("Cannot interpret tracepoint arguments: %s" % args)
+        # one step with the other changes of the registrations: a change that is refused (we are shut down) is taken back
+        # before anybody else can see, or build on, the state in between
         with self._update_lock:
             self._custom.append(config)
             self._custom_ids[tp_id] = config
-        try:
-            self.__trigger_update(None, None)
-        except IllegalStateException:
-            # refused (we are shut down): the caller gets no id, so nothing may be left that could become active later
-            with self._update_lock:
+            try:
+                self.__trigger_update(None, None)
+            except IllegalStateException:
+                # the caller gets no id, so nothing may be left that could become active later
                 self._custom_ids.pop(tp_id, None)
                 self._custom = [cfg for cfg in self._custom if cfg is not config]
-            raise
+                raise
         # the id of this tracepoint, not of its location: several tracepoints can be registered on the same line
         return tp_id
 
@@ -221,11 +222,11 @@ class TracepointConfigService:
                 # not known, or already removed
                 return
             self._custom = [cfg for cfg in self._custom if cfg is not config]
-        try:
-            self.__trigger_update(None, None)
-        except IllegalStateException:
-            # refused (we are shut down): the listeners still have it, so it stays registered and can be removed later
-            with self._update_lock:
+            try:
+                self.__trigger_update(None, None)
+            except IllegalStateException:
+                # refused (we are shut down): the listeners still have it, so it stays registered and can be removed
+                # later
                 self._custom_ids[_id] = config
                 self._custom.append(config)
-            raise
+                raise
